@@ -97,8 +97,19 @@ def iszero(v):
     return v == 0
 
 
+def pynum(v):
+    """numpy scalars (fixed width) as python numbers, so that comparing never overflows or wraps inside the oracle"""
+    try:
+        import numpy as _np
+        if isinstance(v, _np.generic):
+            return v.item()
+    except Exception:
+        pass
+    return v
+
+
 def nz(A):
-    return {k: v for k, v in A.items() if not iszero(v)}
+    return {k: pynum(v) for k, v in A.items() if not iszero(v)}
 
 
 def eq(A, B):
